@@ -100,6 +100,10 @@ fn judge(
     }
 }
 
+/// a hand-written (non-transparent) key type around a safelong
+#[derive(serde::Serialize, serde::Deserialize, PartialEq, Eq, PartialOrd, Ord, Clone, Debug)]
+struct KeyWrap(SafeLong);
+
 fn sl(r: Result<SafeLong, impl Sized>) -> Option<i64> {
     r.ok().map(|s| *s)
 }
@@ -196,6 +200,19 @@ fn check_value(v: i128, label: &str, acc: &mut Acc) {
         conjure_serde::json::client_from_str::<Any>(&keydoc).ok()
             .and_then(|a| a.deserialize_into::<BTreeMap<SafeLong, i32>>().ok())
             .and_then(|m| m.keys().next().map(|k| **k)));
+
+    // keys behind a serde newtype struct and behind Option (hand-written key types), through any
+    // and directly
+    route!(acc, "any_string_key_newtype", v, label, true,
+        conjure_serde::json::client_from_str::<Any>(&keydoc).ok()
+            .and_then(|a| a.deserialize_into::<BTreeMap<KeyWrap, i32>>().ok())
+            .and_then(|m| m.keys().next().map(|k| *k.0)));
+    route!(acc, "any_string_key_option", v, label, true,
+        conjure_serde::json::client_from_str::<Any>(&keydoc).ok()
+            .and_then(|a| a.deserialize_into::<BTreeMap<Option<SafeLong>, i32>>().ok())
+            .and_then(|m| m.keys().next().cloned().flatten().map(|k| *k)));
+    route!(acc, "json_map_key_newtype", v, label, true,
+        conjure_serde::json::server_from_str::<BTreeMap<KeyWrap, i32>>(&keydoc).ok().and_then(|m| m.keys().next().map(|k| *k.0)));
 
     // --- informational spellings: acceptance not demanded, range/value soundness is
     let plus = if v >= 0 { format!("+{}", text) } else { text.clone() };
